@@ -3,12 +3,14 @@ package c11
 import (
 	"bytes"
 	"crypto/x509"
+	"encoding/json"
 	"fmt"
 	"regexp"
 	"runtime"
 	"sort"
 	"strings"
 	"sync"
+	"sync/atomic"
 	"testing"
 
 	"k8s.io/apiserver/pkg/authentication/user"
@@ -122,6 +124,8 @@ func measure(ci *clusters.ClusterInfo, name string) string {
 	return fmt.Sprint(n)
 }
 
+var cfgCompared int64
+
 func observe(gw *bed.Gateway) *Obs {
 	o := &Obs{Resolution: map[string]string{}, Clusters: map[string]*CObs{}}
 	for _, n := range universe {
@@ -177,6 +181,12 @@ func observe(gw *bed.Gateway) *Obs {
 		for _, n := range append([]string{"", "no-such-schema"}, schemaNames...) {
 			co.Schemas[n] = ci.GetFlowSchema(n).String()
 			co.Limits[n] = measure(ci, n)
+		}
+		// what the limiter recorded per schema: strategy, configuration (incl. the global limit), local limiter
+		for name, fcc := range ci.VerifLimiter().AllFlowControls() {
+			b, _ := json.Marshal(fcc.LocalFlowControl().Config())
+			co.Schemas[name+" (recorded)"] = fmt.Sprintf("strategy=%q config=%s local=%s", fcc.Strategy(), b, fcc.LocalFlowControl().String())
+			atomic.AddInt64(&cfgCompared, 1)
 		}
 		for _, p := range probes {
 			rec := p.rec
@@ -258,14 +268,36 @@ func (h *hgen) randAnn() string {
 }
 
 func randSchema(g *vkit.Rand, name string) Sch {
+	var s Sch
 	switch g.Intn(3) {
 	case 0:
 		return Sch{Name: name, Kind: "exempt"}
 	case 1:
-		return Sch{Name: name, Kind: "max", A: g.PickI32([]int32{1, 2, 3, 5})}
+		s = Sch{Name: name, Kind: "max", A: g.PickI32([]int32{1, 2, 3, 5})}
+	default:
+		q := g.PickI32([]int32{1, 2})
+		s = Sch{Name: name, Kind: "tb", A: q, B: q + g.PickI32([]int32{1, 3, 6})}
 	}
-	q := g.PickI32([]int32{1, 2})
-	return Sch{Name: name, Kind: "tb", A: q, B: q + g.PickI32([]int32{1, 3, 6})}
+	randGlobal(g, &s)
+	return s
+}
+
+// randGlobal sets (or removes) the cluster-wide part of a schema: strategy and global limit >= local limit.
+func randGlobal(g *vkit.Rand, s *Sch) {
+	s.Strategy, s.GA, s.GB = "", 0, 0
+	if s.Kind == "exempt" || g.Chance(0.35) {
+		return
+	}
+	s.Strategy = g.Pick([]string{"", "local", "globalAllocate", "globalCount"})
+	if g.Chance(0.8) {
+		s.GA = s.A * g.PickI32([]int32{1, 2, 4, 10})
+		if s.Kind == "tb" {
+			s.GB = s.B * g.PickI32([]int32{1, 2, 4})
+			if s.GB < s.GA {
+				s.GB = s.GA
+			}
+		}
+	}
 }
 
 func (h *hgen) randPolicies(v *Ver) {
@@ -444,10 +476,20 @@ func (h *hgen) mutate(c string) {
 				}
 			}
 			h.feat["schemas"] = true
-		case 5: // schema resized / type changed
+		case 5: // schema resized / type changed, or ONLY its strategy / global limit changed (type and local limit stay)
 			if len(v.Schemas) > 0 {
 				i := g.Intn(len(v.Schemas))
-				v.Schemas[i] = randSchema(g, v.Schemas[i].Name)
+				if v.Schemas[i].Kind != "exempt" && g.Bool() {
+					old := v.Schemas[i]
+					for try := 0; try < 8 && v.Schemas[i] == old; try++ {
+						randGlobal(g, &v.Schemas[i])
+					}
+					if v.Schemas[i] != old {
+						h.feat["global-only-change"] = true
+					}
+				} else {
+					v.Schemas[i] = randSchema(g, v.Schemas[i].Name)
+				}
 			}
 		case 6:
 			h.randPolicies(v)
@@ -938,7 +980,7 @@ func TestCheck(t *testing.T) {
 	vkit.Run(t, "C11", "exploration", func(r *vkit.R) {
 		initMaterial()
 		r.Rule("seeded random histories: 1-3 clusters, 3-30 versions each (servers added/removed/disabled, feature-gate annotation set/changed/removed/annotations removed, " +
-			"flow-control schemas added/removed/resized/type-changed, dispatch policies regenerated, logging switched, aliases added/removed, serving key pair swapped/removed/made incomplete, " +
+			"flow-control schemas added/removed/resized/type-changed and with cluster-wide variants (strategy local/globalAllocate/globalCount, global limit >= local) incl. updates that change ONLY strategy / global limit, dispatch policies regenerated, logging switched, aliases added/removed, serving key pair swapped/removed/made incomplete, " +
 			"client CA swapped/removed, earlier values restored, delete and re-create). Three modes: in-order (every update delivered at once, no name conflicts), " +
 			"requeue (aliases may collide with another cluster's, the refused version is requeued and re-delivered later - also after newer versions; the lister may run ahead of the events), " +
 			"failed-sync (as requeue, plus versions that cannot be applied - whether or not admission would have let them through - one kind per sub-syncer of ClusterInfo.Sync: invalid feature-gate annotation, " +
@@ -948,7 +990,8 @@ func TestCheck(t *testing.T) {
 			"Compared after quiescence: host resolution, endpoint set + disabled flags, server names, 4 feature gates, certificate / client CA / verify options, GetFlowSchema(n).String() and measured limits " +
 			"for 5 schema names, MatchAttributes on 7 probes (flow-control name, log flag, candidate endpoints, limiter). Health part: 300 (thorough 5 000) ClusterInfo-level histories with a scripted health-check function that switch `disabled` back and forth on the same endpoints while the scripted upstream health changes; " +
 			"per enabled endpoint of the latest object the history gateway must be probing (probe counter advances after TriggerHealthCheck, the fresh gateway is the control) and reach the fresh gateway's readiness. " +
-			"Non-trivial = at least two versions of some cluster; distinct = hash of versions + delivery log.")
+			"Remote-limiter part: 32 (thorough 400) ClusterInfo-level histories with the remote rate limiter over a stub limiter server that switch the GlobalRateLimiter gate on/off/on while the server's grant changes; " +
+			"the effective limit of the history gateway must follow the server like the fresh gateway's (real 2 s reconcile loop). Non-trivial = at least two versions of some cluster; distinct = hash of versions + delivery log.")
 		r.Assume("client connection settings are excluded (the statement excepts them); endpoint health is excluded (all endpoints are unreachable in both gateways)")
 		r.Assume("a pending requeue is re-delivered until it succeeds or a whole round of re-deliveries changes nothing")
 
@@ -1100,13 +1143,16 @@ func TestCheck(t *testing.T) {
 			}
 		})
 		healthHistories(r)
+		remoteHistories(r)
+		r.Set("schema_configs_compared", atomic.LoadInt64(&cfgCompared))
 		r.Set("histories_by_feature", feat)
 		r.Set("histories_by_mode", modes)
 		r.Require(r.Counter("versions") >= int64(nh*5), "too few versions")
 		r.Require(r.Counter("requeues") >= int64(nh/4), "too few requeues")
 		r.Require(r.Counter("redeliveries") >= int64(nh/4), "too few re-deliveries")
 		r.Require(r.Counter("clusters_compared") >= int64(nh), "too few clusters compared")
-		for _, f := range []string{"gates", "schemas", "cert", "delete", "conflict", "stale-macro"} {
+		r.Require(atomic.LoadInt64(&cfgCompared) >= int64(nh), "the recorded schema configuration (Config()) could not be read from the limiter")
+		for _, f := range []string{"gates", "schemas", "global-only-change", "cert", "delete", "conflict", "stale-macro"} {
 			r.Require(feat[f] >= nh/20, "history feature "+f+" under-represented")
 		}
 		for _, f := range []string{"fail:feature-gates", "fail:client-ca", "fail:key-pair", "fail:endpoints", "fail:create", "partial-repair"} {
